@@ -438,6 +438,17 @@ fn mul_inputs(r: &mut Rng, n: usize, count: usize) -> Vec<(B, B, B)> {
             with_negs(&mut p, a.clone(), gen::add1(&q));
         }
     }
+    // bit lengths adding up to W - 2 .. W + 1 with random mantissas, including both operands at exactly half the
+    // width: the band where overflow estimates made from leading_zeros are off by one (unsigned and signed limits)
+    for total in [w, w - 1] {
+        for (a, b) in gen::bitlen_pairs(r, n, total, if count >= 500 { 40 } else { 12 }) {
+            if r.below(2) == 0 {
+                with_negs(&mut p, a, b);
+            } else {
+                p.push((a, b));
+            }
+        }
+    }
     // only the top digit of one operand and a low digit of the other (overflow only through the index test)
     for g in [1usize, 2, 4, 8] {
         if g >= n {
@@ -497,7 +508,20 @@ fn div_inputs(r: &mut Rng, n: usize, count: usize) -> Vec<(B, B)> {
             p.push((a.clone(), b.clone()));
         }
     }
-    let want = count;
+    // at 128 and 256 bits (two and four u64 digits; 4 to 32 digits of the narrower types): a bulk of divisions whose
+    // operands consist of runs of ones at 32- and 64-bit granularity.  Estimate-and-correct division steps built
+    // on half digits or on the top digits take their rare branches about once per thousand such operands.
+    if n == 16 || n == 32 {
+        let bulk = if count >= 1000 { 6000 } else { 1500 };
+        for k in 0..bulk {
+            let g = if k % 2 == 0 { 4 } else { 8 };
+            let a = gen::runs(r, n, g);
+            let dl = g * (1 + r.below((n / g) as u64) as usize);
+            let b = gen::fit(&gen::runs(r, dl, g), n);
+            p.push((a, b));
+        }
+    }
+    let want = count + p.len().saturating_sub(50);
     while p.len() < want {
         match r.below(10) {
             // extreme-digit dividend, extreme-digit divisor shorter by 0..n-1 bytes
@@ -552,8 +576,33 @@ fn div_inputs(r: &mut Rng, n: usize, count: usize) -> Vec<(B, B)> {
                 p.push((a, gen::fit(&d, n)));
             }
             7 => {
-                let a = gen::any(r, n, &bnd);
-                p.push((a, gen::small(n, 1 + r.below(300))));
+                if r.below(2) == 0 {
+                    let a = gen::any(r, n, &bnd);
+                    p.push((a, gen::small(n, 1 + r.below(300))));
+                } else {
+                    // exact multiples q * d (and q * d +- 1) of a divisor with exactly two or three digits at a
+                    // granularity, random mantissas: the quotient-digit corrections compare against the top two
+                    // divisor digits, and an exact multiple makes those comparisons ties
+                    let g = *r.pick(&[1usize, 2, 4, 8]);
+                    let dl = g * (2 + r.below(2) as usize);
+                    if dl < n {
+                        let mut d = gen::random(r, dl);
+                        if r.below(2) == 0 {
+                            d = gen::extreme(r, dl);
+                        }
+                        d[dl - 1] |= 1; // top digit non-zero
+                        let d = gen::trim(d);
+                        let ql = n - d.len();
+                        if ql > 0 && !d.is_empty() {
+                            let q = if r.below(2) == 0 { gen::random(r, ql) } else { gen::extreme(r, ql) };
+                            let prod = gen::fit(&gen::umul(&gen::trim(q), &d), n);
+                            let d = gen::fit(&d, n);
+                            p.push((prod.clone(), d.clone()));
+                            p.push((gen::add1(&prod), d.clone()));
+                            p.push((gen::sub1(&prod), d.clone()));
+                        }
+                    }
+                }
             }
             _ => {
                 let a = gen::any(r, n, &bnd);
@@ -647,6 +696,30 @@ fn pow_inputs(r: &mut Rng, n: usize, count: usize) -> Vec<(B, u32)> {
             _ => gen::short(r, n),
         };
         v.push((b, e));
+    }
+    // bases odd * 2^t with t * e just past 2^32 (and past 2^33): shift amounts formed as t * e overflow a u32 there,
+    // while the true wrapped power is 0 and the true overflow flag is set
+    for t in [1u64, 2, 3, 4, 6, 8, 12, 16] {
+        if count < 400 && r.below(3) != 0 {
+            continue;
+        }
+        if t + 2 >= w as u64 {
+            continue;
+        }
+        let odd = 3 + 2 * r.below(6);
+        let base = gen::fit(&gen::trim(((odd as u128) << t).to_le_bytes()[..n.min(16)].to_vec()), n);
+        for top in [1u64 << 32, 1u64 << 33] {
+            for d in [0u64, r.below(w as u64), w as u64 - 1, w as u64] {
+                let te = top + d;
+                let e = te / t + if te % t == 0 { 0 } else { 1 }; // least e with t * e >= top + d
+                if e <= u32::MAX as u64 {
+                    v.push((base.clone(), e as u32));
+                    if r.below(3) == 0 {
+                        v.push((gen::negate(&base), e as u32));
+                    }
+                }
+            }
+        }
     }
     let bnd = gen::boundary(n);
     while v.len() < count {
